@@ -853,8 +853,8 @@ def st_linear_mri(draw):
 
 
 PARTS = [
-    Part("linear", check_linear, {"quick": 1800, "thorough": 40000}, strategy=st_linear),
-    Part("linear-mri", check_linear, {"quick": 300, "thorough": 6000}, strategy=st_linear_mri),
-    Part("history", check_history, {"quick": 640, "thorough": 12000}, machine=make_machine, kind="stateful", steps=25),
-    Part("functions", check_function, {"quick": 3000, "thorough": 60000}, strategy=st_function),
+    Part("linear", check_linear, {"quick": 2700, "thorough": 40000}, strategy=st_linear),
+    Part("linear-mri", check_linear, {"quick": 450, "thorough": 6000}, strategy=st_linear_mri),
+    Part("history", check_history, {"quick": 960, "thorough": 12000}, machine=make_machine, kind="stateful", steps=25),
+    Part("functions", check_function, {"quick": 4500, "thorough": 60000}, strategy=st_function),
 ]
